@@ -351,3 +351,234 @@ Example ex_product_needs_maximal :
   /\ ideal_mul Checked (mkIdeal [[2; 0]; [1; 1]] tZs5) (mkIdeal [[2; 0]; [1; 1]] tZs5) = Done (mkIdeal [[4; 0]; [2; 2]] tZs5)
   /\ principal Checked tZs5 [2; 0] = Done (mkIdeal [[2; 0]; [0; 2]] tZs5).
 Proof. vm_compute. repeat split; reflexivity. Qed.
+
+(** ** Fifth wave: the product of the returned ideals
+
+    [DecompW5Lattice.ideal_product md t res] (a definition of the proof development; the code has no such function)
+    multiplies the unit ideal [principal md t e_0] by P_1 (e_1 times), then by P_2 (e_2 times), ... with the model's
+    [ideal_mul]: prod P_i^e_i computed by [Ideal::principal] and [Mul].  Hypotheses of [prime_above_proper].
+    Proof: the lattice L(D) = { v : D divides (index * v)(x) modulo p }, D a divisor of f mod p, satisfies P_i = L(g_i)
+    ([primes_prime]), L(D1) L(D2) inside L(D1 D2), L(f mod p) = p O; and L(D1) L(g) = L(D1 g) as soon as p lies in the
+    product, which holds when D1, g are coprime (Bezout) or when g is prime to h = (f - prod g_i^e_i)/p (Dedekind). *)
+From RNT.Refine Require Import DecompW5Lattice DecompW5Top.
+From RNT.Refine Require DecompW5Max Round2W3Driver Round2W4PZ.
+
+(** [P] product_below_p: the product is computed without panic, is a lattice in normal form over the same table, and lies
+    in p O: every member has all coordinates divisible by p.  No maximality hypothesis (true for Z[sqrt 5] at 2). *)
+Theorem product_below_p : forall md f b t Sl p r res r' md',
+  prime p -> lmonic f -> Z.of_nat (length f) <= two64 ->
+  let n := length b in
+  length f = S n -> (1 <= n)%nat -> qshape n n b ->
+  nth 0 b [] = Q2Qc 1 :: repeat (Q2Qc 0) (n - 1) ->
+  get_mult_table b f = Done t -> shape n n Sl -> qmmul n Sl b = identity fopsQc n ->
+  decompose md f b t p r = Done (res, r') ->
+  exists I, ideal_product md' t res = Done I /\ i_table I = t /\ is_hnf (i_hnf I) = true /\ wf n (i_hnf I) /\
+            forall v, In_rowspanZ n v (i_hnf I) -> exists w, length w = n /\ v = vscale p w.
+Proof. exact product_below_p_std. Qed.
+
+(** [P] product_equals_p_unramified: when every e_i is 1 (f squarefree modulo p) the product IS p O: it is the ideal
+    [Ideal::principal] returns on p (equal stored forms), its norm is p^n = [O : p O], its members are the p w.
+    (Chinese remainder theorem: the P_i are pairwise comaximal.) *)
+Theorem product_equals_p_unramified : forall md f b t Sl p r res r' md',
+  prime p -> lmonic f -> Z.of_nat (length f) <= two64 ->
+  let n := length b in
+  length f = S n -> (1 <= n)%nat -> qshape n n b ->
+  nth 0 b [] = Q2Qc 1 :: repeat (Q2Qc 0) (n - 1) ->
+  get_mult_table b f = Done t -> shape n n Sl -> qmmul n Sl b = identity fopsQc n ->
+  decompose md f b t p r = Done (res, r') ->
+  Forall (fun Pe : ideal * Z => snd Pe = 1) res ->
+  exists I,
+    ideal_product md' t res = Done I /\ principal md' t (p :: repeat 0 (n - 1)) = Done I /\
+    norm I = Done (p ^ Z.of_nat n) /\
+    forall v, In_rowspanZ n v (i_hnf I) <-> exists w, length w = n /\ v = vscale p w.
+Proof. exact product_unramified_std. Qed.
+
+(** [C] product_equals_p_dedekind.  Full statement: prod P_i^e_i = p O whenever the order is p-maximal.
+    Proved: the same conclusion whenever the boolean [dedekind_flag p f [(g_i, e_i)]] is true: with
+    h = (f - prod g_i^e_i) / p in Z[x] (exact division, [ded_h]), for every i with e_i >= 2 the remainder of h by g_i
+    modulo p (the model's [poly_mod], [poly_divrem]) is not zero -- Dedekind's criterion for p-maximality of Z[theta].
+    The flag is true when no e_i exceeds 1. *)
+Theorem product_equals_p_dedekind : forall md f b t Sl p r res r',
+  prime p -> lmonic f -> Z.of_nat (length f) <= two64 ->
+  let n := length b in
+  length f = S n -> (1 <= n)%nat -> qshape n n b ->
+  nth 0 b [] = Q2Qc 1 :: repeat (Q2Qc 0) (n - 1) ->
+  get_mult_table b f = Done t -> shape n n Sl -> qmmul n Sl b = identity fopsQc n ->
+  decompose md f b t p r = Done (res, r') ->
+  exists gs, decompose_full md f b t p r = Done (gs, r') /\ res = map proj_full gs /\
+    (dedekind_flag p f (map factor_of gs) = true ->
+     forall md', exists I,
+       ideal_product md' t res = Done I /\ principal md' t (p :: repeat 0 (n - 1)) = Done I /\
+       norm I = Done (p ^ Z.of_nat n) /\
+       forall v, In_rowspanZ n v (i_hnf I) <-> exists w, length w = n /\ v = vscale p w).
+Proof. exact product_dedekind_std. Qed.
+
+(** [P] product_equals_p_maximal: the product formula prod P_i^e_i = p O of the Kummer-Dedekind theorem, ramified
+    primes included, under the hypothesis that was missing ([ex_product_needs_maximal]): the order is p-maximal.
+    Hypotheses of [prime_above_proper] plus [is_order f n b] (C06: b is a stored lower triangular basis of a lattice that
+    contains 1 and on which [get_mult_table] returns) and [p_maximal f n p b] (C06: p divides the index of b in none of
+    its over-orders; equivalently the Round 2 step at p returns howmany = 0, [step_zero_iff_p_maximal]).
+    Conclusion: [ideal_product] returns (no panic, both profiles) the very ideal [Ideal::principal] returns on p; its
+    norm is p^n; its members are exactly the vectors p w.
+    Proof: on a p-maximal order the Round 2 step returns 0 (C06 p_maximal_step_zero), so every u with u I_p inside
+    p I_p lies in p O (I_p the p-radical); I_p = L(prod g_i); if some g_i with e_i >= 2 divided
+    h = (f - prod g_j^e_j)/p modulo p, u = (f / g_i)(theta) would be such a multiplier outside p O.  Hence Dedekind's
+    criterion holds and p lies in every partial product (see product_equals_p_dedekind). *)
+Theorem product_equals_p_maximal : forall md f b t Sl p r res r' md',
+  prime p -> lmonic f -> Z.of_nat (length f) <= two64 ->
+  let n := length b in
+  length f = S n -> (1 <= n)%nat -> qshape n n b ->
+  nth 0 b [] = Q2Qc 1 :: repeat (Q2Qc 0) (n - 1) ->
+  get_mult_table b f = Done t -> shape n n Sl -> qmmul n Sl b = identity fopsQc n ->
+  Round2W3Driver.is_order f n b -> Round2W4PZ.p_maximal f n p b ->
+  decompose md f b t p r = Done (res, r') ->
+  exists I,
+    ideal_product md' t res = Done I /\ principal md' t (p :: repeat 0 (n - 1)) = Done I /\
+    norm I = Done (p ^ Z.of_nat n) /\
+    forall v, In_rowspanZ n v (i_hnf I) <-> exists w, length w = n /\ v = vscale p w.
+Proof. exact DecompW5Max.product_pmax_std. Qed.
+
+(** [P] dedekind_necessary: Dedekind's criterion is necessary for p-maximality, on the boolean itself: under the
+    hypotheses of [product_equals_p_maximal] the flag of [product_equals_p_dedekind] evaluates to true on the factors kept
+    by the companion run ([poly_mod] and [poly_divrem] do not panic there and every remainder is non-zero). *)
+Theorem dedekind_necessary : forall md f b t Sl p r gs r',
+  prime p -> lmonic f -> Z.of_nat (length f) <= two64 ->
+  let n := length b in
+  length f = S n -> (1 <= n)%nat -> qshape n n b ->
+  nth 0 b [] = Q2Qc 1 :: repeat (Q2Qc 0) (n - 1) ->
+  get_mult_table b f = Done t -> shape n n Sl -> qmmul n Sl b = identity fopsQc n ->
+  Round2W3Driver.is_order f n b -> Round2W4PZ.p_maximal f n p b ->
+  decompose_full md f b t p r = Done (gs, r') -> dedekind_flag p f (map factor_of gs) = true.
+Proof. exact DecompW5Max.pmax_flag_std. Qed.
+
+(** Non-vacuity.  Z[i]: 5 splits (product of the two primes = (5)), 2 ramifies (P^2 = (2); flag: h = -x, g = x + 1),
+    3 is inert.  Z[cbrt 2] (the maximal order of x^3 - 2): 31 splits into three primes, 5 = P1 P2 with residue degrees
+    1 and 2, 3 = P^3 and 2 = P^3 totally ramified (flags true).  Dedekind's cubic, maximal order, 3 inert.
+    Z[sqrt 5] at 2 (not 2-maximal): the flag is false, the product (4, 2 + 2 sqrt 5) lies in (2) but is not (2). *)
+Definition fC : list Z := [-2; 0; 0; 1].
+Definition bC : qmat := [[Q2Qc 1; Q2Qc 0; Q2Qc 0]; [Q2Qc 0; Q2Qc 1; Q2Qc 0]; [Q2Qc 0; Q2Qc 0; Q2Qc 1]].
+Definition tC : table := [[[1; 0; 0]; [0; 1; 0]; [0; 0; 1]]; [[0; 1; 0]; [0; 0; 1]; [2; 0; 0]]; [[0; 0; 1]; [2; 0; 0]; [0; 2; 0]]].
+Definition SlC : list (list Z) := [[1; 0; 0]; [0; 1; 0]; [0; 0; 1]].
+Example ex_hyps_C :
+  lmonic fC /\ length fC = S (length bC) /\ qshape 3 3 bC /\ nth 0 bC [] = Q2Qc 1 :: repeat (Q2Qc 0) (3 - 1)
+  /\ get_mult_table bC fC = Done tC /\ shape 3 3 SlC /\ qmmul 3 SlC bC = identity fopsQc 3.
+Proof. repeat split; try (vm_compute; reflexivity); repeat constructor. Qed.
+Example ex_cubic_31 : exists r', decompose_full Checked fC bC tC 31 draws5
+    = Done ([([24; 1], mkIdeal [[31; 0; 0]; [24; 1; 0]; [13; 0; 1]] tC, 1);
+             ([11; 1], mkIdeal [[31; 0; 0]; [11; 1; 0]; [3; 0; 1]] tC, 1);
+             ([27; 1], mkIdeal [[31; 0; 0]; [27; 1; 0]; [15; 0; 1]] tC, 1)], r')
+    /\ ideal_product Checked tC [(mkIdeal [[31; 0; 0]; [24; 1; 0]; [13; 0; 1]] tC, 1);
+                                 (mkIdeal [[31; 0; 0]; [11; 1; 0]; [3; 0; 1]] tC, 1);
+                                 (mkIdeal [[31; 0; 0]; [27; 1; 0]; [15; 0; 1]] tC, 1)]
+       = Done (mkIdeal [[31; 0; 0]; [0; 31; 0]; [0; 0; 31]] tC)
+    /\ principal Checked tC [31; 0; 0] = Done (mkIdeal [[31; 0; 0]; [0; 31; 0]; [0; 0; 31]] tC)
+    /\ norm (mkIdeal [[31; 0; 0]; [0; 31; 0]; [0; 0; 31]] tC) = Done (31 ^ 3).
+Proof. eexists. vm_compute. repeat split; reflexivity. Qed.
+Example ex_cubic_5_3_2 :
+  decompose_full Checked fC bC tC 5 (rng_of [])
+    = Done ([([2; 1], mkIdeal [[5; 0; 0]; [2; 1; 0]; [1; 0; 1]] tC, 1);
+             ([4; 3; 1], mkIdeal [[5; 0; 0]; [0; 5; 0]; [4; 3; 1]] tC, 1)], rng_of [])
+  /\ ideal_product Checked tC [(mkIdeal [[5; 0; 0]; [2; 1; 0]; [1; 0; 1]] tC, 1); (mkIdeal [[5; 0; 0]; [0; 5; 0]; [4; 3; 1]] tC, 1)]
+     = principal Checked tC [5; 0; 0]
+  /\ decompose_full Checked fC bC tC 3 (rng_of []) = Done ([([1; 1], mkIdeal [[3; 0; 0]; [1; 1; 0]; [2; 0; 1]] tC, 3)], rng_of [])
+  /\ dedekind_flag 3 fC [([1; 1], 3)] = true
+  /\ ideal_product Checked tC [(mkIdeal [[3; 0; 0]; [1; 1; 0]; [2; 0; 1]] tC, 3)] = principal Checked tC [3; 0; 0]
+  /\ decompose_full Checked fC bC tC 2 (rng_of []) = Done ([([0; 1], mkIdeal [[2; 0; 0]; [0; 1; 0]; [0; 0; 1]] tC, 3)], rng_of [])
+  /\ dedekind_flag 2 fC [([0; 1], 3)] = true
+  /\ ideal_product Checked tC [(mkIdeal [[2; 0; 0]; [0; 1; 0]; [0; 0; 1]] tC, 3)] = principal Checked tC [2; 0; 0]
+  /\ principal Checked tC [2; 0; 0] = Done (mkIdeal [[2; 0; 0]; [0; 2; 0]; [0; 0; 2]] tC).
+Proof. vm_compute. repeat split; reflexivity. Qed.
+Example ex_products_Zi :
+  ideal_product Checked tZi [(mkIdeal [[5; 0]; [2; 1]] tZi, 1); (mkIdeal [[5; 0]; [3; 1]] tZi, 1)] = Done (mkIdeal [[5; 0]; [0; 5]] tZi)
+  /\ principal Checked tZi [5; 0] = Done (mkIdeal [[5; 0]; [0; 5]] tZi)
+  /\ dedekind_flag 2 fZi [([1; 1], 2)] = true /\ ded_h 2 fZi [([1; 1], 2)] = [0; -1]
+  /\ ideal_product Checked tZi [(mkIdeal [[2; 0]; [1; 1]] tZi, 2)] = Done (mkIdeal [[2; 0]; [0; 2]] tZi)
+  /\ principal Checked tZi [2; 0] = Done (mkIdeal [[2; 0]; [0; 2]] tZi)
+  /\ ideal_product Checked tZi [(mkIdeal [[3; 0]; [0; 3]] tZi, 1)] = principal Checked tZi [3; 0]
+  /\ ideal_product Checked tD [(mkIdeal [[3; 0; 0]; [0; 3; 0]; [0; 0; 3]] tD, 1)] = principal Checked tD [3; 0; 0]
+  /\ norm (mkIdeal [[2; 0]; [0; 2]] tZi) = Done (2 ^ 2).
+Proof. vm_compute. repeat split; reflexivity. Qed.
+Example ex_flag_false_Zs5 :
+  dedekind_flag 2 fS5 [([1; 1], 2)] = false /\ ded_h 2 fS5 [([1; 1], 2)] = [-3; -1]
+  /\ ideal_product Checked tZs5 [(mkIdeal [[2; 0]; [1; 1]] tZs5, 2)] = Done (mkIdeal [[4; 0]; [2; 2]] tZs5)
+  /\ principal Checked tZs5 [2; 0] = Done (mkIdeal [[2; 0]; [0; 2]] tZs5).
+Proof. vm_compute. repeat split; reflexivity. Qed.
+
+(** Non-vacuity of the two new hypotheses: Z[i] and Z[cbrt 2] are orders in the sense of C06 (they are what
+    [find_integral_basis] returns; C06 find_integral_basis_order_monic) and are p-maximal at the ramified primes 2,
+    resp. 3 and 2 (the Round 2 step returns howmany = 0 there; C06 step_zero_p_maximal).  Z[sqrt 5] is not 2-maximal
+    and the conclusion fails for it ([ex_flag_false_Zs5]). *)
+From RNT.Model Require Round2.
+From RNT.Refine Require Round2W3Start.
+Example ex_pmax_hyps :
+  Round2W3Driver.is_order fZi 2 bZi /\ Round2W4PZ.p_maximal fZi 2 2 bZi /\
+  Round2W3Driver.is_order fC 3 bC /\ Round2W4PZ.p_maximal fC 3 3 bC /\ Round2W4PZ.p_maximal fC 3 2 bC.
+Proof.
+  assert (IOi : Round2W3Driver.is_order fZi 2 bZi).
+  { pose proof (Round2W3Start.find_integral_basis_order_monic Checked fZi 2 eq_refl eq_refl ltac:(lia) eq_refl) as H.
+    vm_compute Round2.find_integral_basis in H. exact H. }
+  assert (IOc : Round2W3Driver.is_order fC 3 bC).
+  { pose proof (Round2W3Start.find_integral_basis_order_monic Checked fC 3 eq_refl eq_refl ltac:(lia) eq_refl) as H.
+    vm_compute Round2.find_integral_basis in H. exact H. }
+  split; [exact IOi|]. split.
+  { eapply Round2W4PZ.step_zero_p_maximal; [reflexivity|reflexivity|lia|exact prime_2|exact IOi|vm_compute; reflexivity]. }
+  split; [exact IOc|]. split.
+  { eapply Round2W4PZ.step_zero_p_maximal; [reflexivity|reflexivity|lia|exact prime_3|exact IOc|vm_compute; reflexivity]. }
+  { eapply Round2W4PZ.step_zero_p_maximal; [reflexivity|reflexivity|lia|exact prime_2|exact IOc|vm_compute; reflexivity]. }
+Qed.
+
+
+(** ** Fifth wave: the integral-basis pipeline
+
+    [P] decompose_integral_basis: for every monic f of degree deg >= 1 (2 deg < 2^64) whose starting order has a
+    non-zero discriminant of fewer than 2^64 bits (the hypotheses of C06 find_integral_basis_p_maximal), in both build
+    profiles: [find_integral_basis] returns an order O, [get_mult_table] returns its table t, and for EVERY prime p,
+    every draw stream and both profiles, whenever [decompose md f O t p r] returns [res] (it does, or the model's fuel
+    runs out, when p does not divide the index; otherwise the documented panic -- [decompose_no_panic]):
+      - every P_i is a proper ideal with P_i meet Z = pZ and a prime ideal of O; the P_i are pairwise distinct;
+      - [Ideal::norm] P_i = p^(deg g_i) and sum e_i deg g_i = deg (g_i the factors of f mod p kept by the companion run);
+      - prod P_i^e_i = p O: [ideal_product] returns the ideal [Ideal::principal] returns on p, of norm p^deg.
+    No hypothesis on the order is left: O is p-maximal at every p (C06), its first row is (1, 0, .., 0)
+    (DecompW5Pipeline.order_first_row: w_0 = c > 0 with c^2 = c w_0 integral and 1 = k c), it is lower triangular,
+    and it contains Z[theta] (DecompW5Contain.monic_contains_power_basis). *)
+From RNT.Refine Require DecompW5PipelineTop.
+Theorem decompose_integral_basis : forall m f deg,
+  PolyZ.canonZ f = true -> length f = S deg -> (1 <= deg)%nat -> 2 * Z.of_nat deg < two64 ->
+  nth deg f 0 = 1 ->
+  (forall o0 d0, non_monic_initial_order f = Done o0 -> Round2.order_disc m o0 f = Done d0 ->
+     d0 <> 0 /\ Z.log2 (Z.abs d0) < two64) ->
+  exists O t,
+    Round2.find_integral_basis m f = Done O /\ get_mult_table O f = Done t /\ length O = deg /\
+    forall p md r res r', prime p -> decompose md f O t p r = Done (res, r') ->
+      Forall (fun Pe : ideal * Z =>
+         ~ In_rowspanZ deg (unit_vec deg 0) (i_hnf (fst Pe)) /\ cap_z (fst Pe) = Done p /\
+         forall u v, length u = deg -> length v = deg ->
+           In_rowspanZ deg (bil t u v) (i_hnf (fst Pe)) ->
+           In_rowspanZ deg u (i_hnf (fst Pe)) \/ In_rowspanZ deg v (i_hnf (fst Pe))) res /\
+      NoDup (map (fun Pe : ideal * Z => i_hnf (fst Pe)) res) /\
+      (exists gs, decompose_full md f O t p r = Done (gs, r') /\ res = map proj_full gs /\
+         Forall (fun x : list Z * ideal * Z => norm (snd (fst x)) = Done (p ^ pdeg (fst (fst x)))) gs /\
+         DecompDegree.degree_sum (map factor_of gs) = pdeg f) /\
+      forall md', exists I,
+        ideal_product md' t res = Done I /\ principal md' t (p :: repeat 0 (deg - 1)) = Done I /\
+        norm I = Done (p ^ Z.of_nat deg) /\
+        forall v, In_rowspanZ deg v (i_hnf I) <-> exists w, length w = deg /\ v = vscale p w.
+Proof. exact DecompW5PipelineTop.pipeline_decomposition. Qed.
+
+(** Non-vacuity: the hypotheses on x^2 + 1 (d0 = -4), x^3 - 2 (d0 = -108), Dedekind's cubic (d0 = -2012); the driver
+    returns Z[i], Z[cbrt 2] and the maximal order of index 2 (runs above: ex_split, ex_ramified, ex_cubic_31,
+    ex_cubic_5_3_2, ex_dedekind_inert) *)
+Example ex_pipeline_hyps : forall f, In f [fZi; fC; fD] ->
+  PolyZ.canonZ f = true /\ nth (length f - 1) f 0 = 1 /\ 2 * Z.of_nat (length f - 1) < two64 /\
+  forall m o0 d0, non_monic_initial_order f = Done o0 -> Round2.order_disc m o0 f = Done d0 ->
+    d0 <> 0 /\ Z.log2 (Z.abs d0) < two64.
+Proof.
+  intros f [<-|[<-|[<-|[]]]]; (split; [reflexivity|]; split; [reflexivity|]; split; [reflexivity|]);
+    intros m o0 d0 N0 D0; vm_compute in N0; injection N0 as <-;
+    destruct m; vm_compute in D0; injection D0 as <-; split; try discriminate; reflexivity.
+Qed.
+Example ex_pipeline_orders :
+  (exists O, Round2.find_integral_basis Checked fZi = Done O /\ get_mult_table O fZi = Done tZi) /\
+  (exists O, Round2.find_integral_basis Checked fC = Done O /\ get_mult_table O fC = Done tC) /\
+  (exists O, Round2.find_integral_basis Checked fD = Done O /\ get_mult_table O fD = Done tD).
+Proof. repeat split; eexists; (split; [vm_compute; reflexivity|vm_compute; reflexivity]). Qed.
